@@ -34,6 +34,11 @@ def hierarchies(draw):
     lines += ["class Err1(msg: Str): Exception(msg)", "class Err2(msg: Str): Err1(msg)"]
     parents["Err1"] = ["Exception"]
     parents["Err2"] = ["Err1"]
+    # body-less type definitions with a parent (no body, no condition), also chained
+    k = draw(st.integers(0, n - 1))
+    lines += ["type Ty0: %s" % names[k], "type Ty1: Ty0"]
+    parents["Ty0"] = [names[k]]
+    parents["Ty1"] = ["Ty0"]
     size = draw(st.sampled_from(["small", "small", "medium"]))  # medium only matters in the thorough tier
     return {"src": "\n".join(lines) + "\n", "user_parents": parents, "size": size,
             "pick": draw(st.integers(0, 10 ** 6))}
@@ -144,7 +149,7 @@ def ancestors(cls, parents):
 
 class C20:
     id = "C20"
-    cases = {"quick": 2, "thorough": 30}
+    cases = {"quick": 1, "thorough": 30}
     rule = ("per case a generated user hierarchy (3-7 classes, depth <=3, up to two parents each, an interface with "
             "implementer, a two-level exception chain) is compiled into a context; the universe is every plain class of that "
             "context (built-in and user), List/Set/Dict/Tuple instantiations to depth 2, function types, the nullable variant of "
@@ -172,9 +177,10 @@ class C20:
         self.tier = tier
         yield {"src": "class U0\n    def f_u0: Int := 1\nclass U1: U0\n    def f_u1: Int := 1\nclass U2: U1\n    def f_u2: Int := 1\n"
                       "class U3\n    def f_u3: Int := 1\nclass U4: U0, U3\n    def f_u4: Int := 1\ntype Iface\n    def ifun(self) -> Int\n"
-                      "class Impl: Iface\n    def ifun(self) -> Int => 1\nclass Err1(msg: Str): Exception(msg)\nclass Err2(msg: Str): Err1(msg)\n",
+                      "class Impl: Iface\n    def ifun(self) -> Int => 1\nclass Err1(msg: Str): Exception(msg)\nclass Err2(msg: Str): Err1(msg)\n"
+                      "type Ty0: U2\ntype Ty1: Ty0\n",
                "user_parents": {"U0": [], "U1": ["U0"], "U2": ["U1"], "U3": [], "U4": ["U0", "U3"], "Iface": [],
-                                "Impl": ["Iface"], "Err1": ["Exception"], "Err2": ["Err1"]},
+                                "Impl": ["Iface"], "Err1": ["Exception"], "Err2": ["Err1"], "Ty0": ["U2"], "Ty1": ["Ty0"]},
                "size": "medium", "pick": 0}
 
     def summarize(self, case):
@@ -272,6 +278,9 @@ class C20:
         any_i = idx["Any"]
         none_i = idx.get("None")
         parents = {c: info["parents"] for c, info in classes.items()}
+        # for the classes of the generated hierarchy the reference is what the SOURCE declares, not what the context reports
+        for c, ps in case["user_parents"].items():
+            parents[c] = list(ps)
         for i, (t, tags) in enumerate(terms):
             k = tags["kind"]
             has_none = none_i is not None and none_i in (tags.get("members") or ())
